@@ -71,6 +71,7 @@ void Scheduler::yield_point(int kind) {
     }
     if (target < 0) return;
     taken.push_back({global_yield, target}); switches++;
+    if (on_switch) on_switch(current, target);
     int me = current; current = target;
     sem_post(&tasks[(size_t) target]->sem);
     sem_wait(&tasks[(size_t) me]->sem);
